@@ -169,7 +169,8 @@ def fallback_shape(attr, v):
 
 def streamio_facts(tree, bare_attr):
     c = cls_of(tree, "StreamIO")
-    init = fn_of(c, "__init__")
+    from .normalize import if_assign_to_ifexp
+    init = if_assign_to_ifexp(fn_of(c, "__init__"))  # `if T: self.x = A else: self.x = B` reads as `self.x = A if T else B`
     defaults = kwonly_defaults(init, list(TIMEOUT_KW))
     assigns = []
     for st in body_nodoc(init):
